@@ -589,7 +589,8 @@ def run_session(world, spec, timeout=None):
         except Exception:
             pass
     try:
-        proc.wait(timeout=30 if obs["outcome"] != "timeout" else 1)
+        # both pipe ends are closed now, so the bash side runs into EOF/EPIPE and leaves by itself
+        proc.wait(timeout=(timeout or TIMEOUT) if obs["outcome"] != "timeout" else 1)
     except subprocess.TimeoutExpired:
         proc.kill()
         proc.wait()
@@ -793,7 +794,7 @@ def judge(spec, obs):
 
 def check(world, spec):
     obs = run_session(world, spec)
-    if obs["outcome"] == "timeout":
+    if obs["outcome"] == "timeout" or obs.get("bash_killed"):
         # a starved machine can exceed the time limit: only a hang that shows again with four times the allowance counts
         obs = run_session(world, spec, timeout=4 * TIMEOUT)
     obs["world_image"] = world.image
